@@ -1,0 +1,30 @@
+//go:build verif
+
+package util
+
+import gotime "time"
+
+// VerifRepeat lets a verification harness drive the endless WithRepeat loop for a
+// finite number of iterations. It is only compiled with the build tag `verif`.
+var VerifRepeat struct {
+	// Interval overrides the tick interval, if non-zero.
+	Interval gotime.Duration
+
+	// OnTick is called at the beginning of every iteration with the number of
+	// iterations completed so far. If it returns true, the loop ends.
+	OnTick func(completedIterations int64) (stop bool)
+}
+
+func verifInterval(interval gotime.Duration) gotime.Duration {
+	if VerifRepeat.Interval != 0 {
+		return VerifRepeat.Interval
+	}
+	return interval
+}
+
+func verifTick(completedIterations int64) bool {
+	if VerifRepeat.OnTick != nil {
+		return VerifRepeat.OnTick(completedIterations)
+	}
+	return false
+}
